@@ -7,8 +7,7 @@ out = []
 misses = json.load(open('/verif/seeded/KNOWN_MISSES.json'))
 for d in sorted(glob.glob('/verif/seeded/C*')):
     sid = os.path.basename(d)
-    if sid in misses:
-        continue  # documented gap: not a control (DESIGN.md 9.5)
+    known_miss = sid in misses  # documented gap (DESIGN.md 9.5): kept for the matrix, never counted as a failed control
     meta = json.load(open(d + '/meta.json'))
     edits = []
     cur = None
@@ -31,6 +30,6 @@ for d in sorted(glob.glob('/verif/seeded/C*')):
     es = []
     for e in edits:
         es.append({'file': e['file'], 'old': '\n'.join(e['old']), 'new': '\n'.join(e['new']), 'create': e['create']})
-    out.append({'props': [meta['property']], 'name': 'seed-' + sid, 'positive': True, 'rule': '', 'edits': es})
+    out.append({'props': [meta['property']], 'name': 'seed-' + sid, 'positive': True, 'rule': 'known-miss' if known_miss else '', 'edits': es})
 json.dump(out, open('/verif/sa/internal/rules/controls_seeds.json', 'w'), indent=1)
 print(len(out), 'seed controls')
